@@ -577,7 +577,8 @@ impl Responder for McServer {
                 }
             }
             Proto::Tcp => {
-                if nth == 0 {
+                let restart = nth > 0 && classify_tcp_first_send(data).is_some() && data != [0x01, 0x00] && data != [0x01, 0x01];
+                if nth == 0 || restart {
                     let v = classify_tcp_first_send(data);
                     self.seen.push((proto, v));
                     match v {
@@ -602,7 +603,7 @@ impl Responder for McServer {
                             }
                         }
                     }
-                } else if nth == 1 && data == [0x01, 0x00] {
+                } else if data == [0x01, 0x00] {
                     // status request after a Java handshake
                     if self.spec.speaks(Variant::Java) && matches!(self.seen.last(), Some((Proto::Tcp, Some(Variant::Java)))) && !out.conn.closed {
                         out.stream(&self.spec.java.stream());
